@@ -38,6 +38,7 @@ func checkC17(c *Ctx, r *Report) {
 	r.rule("C17.R6.keyfile-last-line", 1, "the key-file lexer refuses to flush its pending token only for a real read error, not for io.EOF")
 	lexerTailGuard(c, r, "C17.R6.keyfile-last-line", "klexer.Next", "the last line of a private-key file without a final newline (the PrivateKey line of the library's own ECDSA / Ed25519 export) is dropped and ReadPrivateKey returns a zero key without an error")
 	c17Unhashable(c, r, "C17.R1.unhashable")
+	borrow(c, r, c10R1, "C10.R1.verify-guards", "C17.R4.verify-guards", 2, "RRSIG.Verify's pre-checks compare the signer name with the key's owner name ignoring case", func(k string) bool { return strings.Contains(k, "equal(") }, "a DNSKEY whose owner name has a capital letter no longer verifies its own signatures")
 }
 
 // c17R6: the RSA public-key decoder accepts every modulus size the generator can produce.
